@@ -122,6 +122,9 @@ fn do_op(op: &Value) -> Value {
         "pref" => ok(mc::set_preference(s(op, 1), s(op, 2)).map(|_| Value::Null)),
         "getpref" => ok(mc::get_preference(s(op, 1))),
         "mathml" => ok(mc::set_mathml(s(op, 1))),
+        // set_mathml(<text> with the first occurrence of <pattern> replaced by <replacement>): with a result reference as <text> this is the
+        // "edit the returned MathML and set it again" flow of an editor, inside one session
+        "mathml_sub" => ok(mc::set_mathml(s(op, 1).replacen(&s(op, 2), &s(op, 3), 1))),
         "speech" => ok(mc::get_spoken_text()),
         "overview" => ok(mc::get_overview_text()),
         "braille" => ok(mc::get_braille(s(op, 1))),
